@@ -163,12 +163,27 @@ pub fn replay(a: &Args) {
             None
         };
         let st = dir.join("strace.txt");
-        let out = if use_strace {
-            Command::new("strace").arg("-f").arg("-o").arg(&st).arg("-e").arg("trace=openat,write,exit_group").arg("-s").arg("0")
-                .arg(&bin).args(&args).env_remove("RUST_LOG").output()
+        // "every input file and every combination of options": nothing else may matter - the runs cycle through
+        // environments (inherited / nearly empty / unusual locale and terminal settings) and working directories
+        let mut cmd = if use_strace {
+            let mut c0 = Command::new("strace");
+            c0.arg("-f").arg("-o").arg(&st).arg("-e").arg("trace=openat,write,exit_group").arg("-s").arg("0").arg(&bin);
+            c0
         } else {
-            Command::new(&bin).args(&args).env_remove("RUST_LOG").output()
+            Command::new(&bin)
         };
+        cmd.args(&args).env_remove("RUST_LOG");
+        match ci % 3 {
+            1 => {
+                cmd.env_clear().env("PATH", std::env::var("PATH").unwrap_or_default());
+            }
+            2 => {
+                cmd.env("LANG", "tr_TR.UTF-8").env("LC_ALL", "tr_TR.UTF-8").env("NO_COLOR", "1").env("CLICOLOR_FORCE", "1").env("TERM", "dumb")
+                    .env("COLUMNS", "20").env("RUST_LOG", "trace").env("RUST_BACKTRACE", "full").env("TZ", "Pacific/Kiritimati").current_dir("/");
+            }
+            _ => {}
+        }
+        let out = cmd.output();
         let out = match out {
             Ok(o) => o,
             Err(e) => {
